@@ -18,6 +18,14 @@ def errStr : AHT.Err → String
 
 def b2s (b : Bool) : String := if b then "true" else "false"
 
+/-- `Size()` and `Root()` of the current tree -/
+def sizeRoot (f : AHTFile Bytes) : String :=
+  let t := f.cur
+  if t.size = 0 then "0 err:empty"
+  else
+    let r := match AHT.rootAt t t.size with | .ok r => Bytes.toHex r | .error e => errStr e
+    s!"{t.size} {r}"
+
 def step (s : St) : List String → St × String
   | ["aht.new", n] =>
     match n.toNat? with
@@ -44,6 +52,18 @@ def step (s : St) : List String → St × String
     | some n => match AHTFile.resetSize s.f n with
       | none => (s, "err:larger")
       | some f => ({ s with f := f }, "ok")
+  -- operations that returned an error because a call on an underlying log failed (fault histories):
+  -- the model state after the step, answered as "<size> <root>"
+  | ["aht.appendfail", d] =>
+    match Bytes.ofHex d with
+    | none => (s, "bad-op")
+    | some d => let f := s.f.appendFail d; ({ s with f := f }, sizeRoot f)
+  | ["aht.syncfail"] => let f := s.f.syncFail; ({ s with f := f }, sizeRoot f)
+  | ["aht.resetfail", m, sy] =>
+    match m.toNat? with
+    | none => (s, "bad-op")
+    | some m => let f := s.f.resetFail m (sy == "1"); ({ s with f := f }, sizeRoot f)
+  | ["aht.readfail"] => (s, sizeRoot s.f)
   | ["aht.size"] => (s, toString s.f.cur.size)
   | ["aht.root", n] =>
     match n.toNat? with
